@@ -5,6 +5,7 @@ package jobs
 import (
 	"context"
 	"errors"
+	"fmt"
 	"sync"
 
 	"github.com/mimiro-io/datahub/internal/server"
@@ -27,7 +28,8 @@ type VerifRun struct {
 	Processed int
 	Token     string
 	HasResult bool
-	Running   int // run slots still occupied after the run
+	Panic     string // non-empty if the run panicked in the calling goroutine
+	Running   int    // run slots still occupied after the run
 	TicketsI  int
 	TicketsF  int
 }
@@ -89,8 +91,16 @@ func (s *Scheduler) VerifRunSync(cfg *JobConfiguration, jobType string, fault Ve
 	pipeline.spec().sink = rec
 	j := &job{id: cfg.ID, title: cfg.Title, pipeline: pipeline, runner: s.Runner, dsm: s.DatasetManager}
 	_ = s.Runner.store.DeleteObject(server.JobResultIndex, cfg.ID)
-	j.Run()
-	out := &VerifRun{Calls: rec.calls}
+	out := &VerifRun{}
+	func() {
+		defer func() {
+			if r := recover(); r != nil {
+				out.Panic = fmt.Sprint(r)
+			}
+		}()
+		j.Run()
+	}()
+	out.Calls = rec.calls
 	res := &jobResult{}
 	if err := s.Store.GetObject(server.JobResultIndex, cfg.ID, res); err == nil && res.ID != "" {
 		out.HasResult = true
